@@ -455,13 +455,14 @@ theorem recip_form_limits_counterexample :
 
 end rounding
 
-/-- **`ploidy` handed to the ndarray form as a numpy int8 scalar (defect D62).**  64 diploid taxa, all homozygous for the
-    allele with effect `3`: every breeding value is 6, but `ploidy * shape[0] = 2 * 64` wraps to `-128` in int8, the
-    "frequency" is `-1`, and both limits come out as 0.  With a Python int (`afreqAt`) both limits are 6.
-    The theorems of sections 1-2 take the ploidy as a natural number, i.e. they describe the call with a Python int. -/
-theorem np_int8_ploidy_limits_counterexample :
+/-- **`ploidy` handed to the ndarray form as a numpy int8 scalar (defect D62, fixed in /repo).**  64 diploid taxa, all
+    homozygous for the allele with effect `3`: every breeding value is 6, but before the repair `ploidy * shape[0] = 2 * 64`
+    wrapped to `-128` in int8, the "frequency" was `-1`, and both limits came out as 0.  The repaired code forms the product
+    with `int(ploidy)` - a Python int, the natural-number product of `afreqAt` - and both limits are 6; the theorems of
+    sections 1-2 (ploidy a natural number) therefore cover every Integral the caller may pass. -/
+theorem np_int8_ploidy_limits_prerepair_counterexample :
     let m : UMat := List.replicate 64 [2]
-    let p : List Rat := afreqNpPloidy (α := Rat) 8 2 1 m
+    let p : List Rat := afreqNpPloidyPrerepair (α := Rat) 8 2 1 m
     p = [-1]
     ∧ uslF (α := Rat) 2 1 (fun _ => 3) (fun j => p.getD j 0) = 0
     ∧ lslF (α := Rat) 2 1 (fun _ => 3) (fun j => p.getD j 0) = 0
